@@ -58,7 +58,7 @@ contract('matcher.BaseMatcher.addValue',
                        when='%s is None or key_rejected(val(%s)[0], val(%s)[1], self._values[%s], '
                             'kt_val(self.type.keytype, key))' % (TARGET, TARGET, TARGET, T_ATTR),
                        then=[Clause('self._values == old(self._values)', carries='C01', label='nothing-recorded'),
-                             Clause('not exc.has_lineno and exc.url is None', label='no-position-yet')],
+                             Clause('not exc.has_lineno and exc.url is None', carries='C08', label='no-position-yet-the-parser-adds-the-current-line-and-resource')],
                        carries='C01,C15', label='unknown-or-repeated-key')],
          hints=['key_search(self.type, _i0, realkey, arbkey_info)'],
          loops=[Loop(invariant=[Clause('key_search(self.type, _i0, realkey, arbkey_info) == '
